@@ -77,8 +77,8 @@ func init() {
 		Controls: []string{"CtlTxn7ExitInStatement"},
 		Run:      ruleTxn7})
 	Register(&Rule{ID: "R-TXN-8", Props: []string{"C01", "C10"}, Floor: 7,
-		Doc:      "what is encoded is what is swapped: in (*Transaction).Commit every encode — a direct EncodeView call, or a call of a per-view helper shown to encode one view and to return that view's FileInfo on every success return — writes through the FileForUpdate descriptor of the handler of the view it encodes; after a successful encode every path appends that view's FileInfo to a slice before the next encode, a swap or a return that can report success; the slices whose elements' handlers are swapped (Container.Commit in a loop over the whole slice) are exactly those slices, each built only by one make and those appends; the encoded views derive from both maps returned by UncommittedFiles; after a successful swap the same FileInfo is Unset before the next swap or success return. Helper extraction is followed for two levels on the encode side (per-view helper; helper that encodes the views of its map parameter and returns the list) and one level on the swap side (helper that swaps and Unsets every element of its slice parameter); anything else is reported as undecided",
-		Controls: []string{"CtlTxn8SwapsOtherList"},
+		Doc:      "what is encoded is what is swapped: in (*Transaction).Commit every encode — a direct EncodeView call, or a call of a per-view helper shown to encode one view and to return that view's FileInfo on every success return — writes through the FileForUpdate descriptor of the handler of the view it encodes; after a successful encode every path appends that view's FileInfo to a slice before the next encode, a swap or a return that can report success; the slices whose elements' handlers are swapped (Container.Commit in a loop over the whole slice) are exactly those slices, each built only by one make and those appends; the encoded views derive from both maps returned by UncommittedFiles; after a successful swap the same FileInfo is Unset before the next swap or success return. Helper extraction is followed for two levels on the encode side (per-view helper; helper that encodes the view it is handed into the file it is handed and returns only the error — view and file parameters are mapped back to the arguments of the call, which then stands for the encode; helper that encodes the views of its map parameter and returns the list) and one level on the swap side (helper that swaps and Unsets every element of its slice parameter); anything else is reported as undecided",
+		Controls: []string{"CtlTxn8SwapsOtherList", "CtlTxn8HandedOtherFile"},
 		Run:      ruleTxn8})
 }
 
@@ -2249,6 +2249,8 @@ func ruleTxn8(c *Ctx) {
 	if commit == nil {
 		return
 	}
+	start := len(c.Obs)
+	defer func() { c.negControls(start, "okTxn8HandedFileHelper") }()
 	txn8Func(c, commit, true)
 	for _, f := range txnCtl(c, "Txn8") {
 		if f.Parent() == nil {
@@ -2460,6 +2462,11 @@ type txn8Enc struct {
 	from   []ssa.Value             // values the encoded view is derived from (for "both maps are encoded")
 	helper *ssa.Function           // helper only
 	isFI   func(el ssa.Value) bool // el is the FileInfo of the view encoded here
+	// write helper (a helper that encodes the view it is handed into the file it is handed and returns
+	// only the error): view is the argument handed for the view; writer the argument handed for the file
+	// (nil when the helper takes FileForUpdate() of the view's own handler itself)
+	handed bool
+	writer ssa.Value
 }
 
 func txn8DirectEnc(e *ssa.Call) txn8Enc {
@@ -2545,8 +2552,25 @@ func txn8CollectEncs(c *Ctx, g *ssa.Function, depth int, onSwap func(call ssa.Ca
 					list = txnExtract(cc, 0)
 				}
 				lists = append(lists, txn8ListHelper{cc, list, h, mp})
-			default:
-				return nil, nil, "views are encoded inside " + txnCallLabel(p, call) + ", which returns neither the FileInfo nor the list of FileInfos of what it encoded", in
+			default: // write helper: err := h(…, file, view, …)
+				pw, pv, w := txn8WriteHelper(c, h, depth+1)
+				if w != "" || pv >= len(cc.Call.Args) || pw >= len(cc.Call.Args) {
+					return nil, nil, "views are encoded inside " + txnCallLabel(p, call) + ", which returns neither the FileInfo nor the list of FileInfos of what it encoded, and is not shown to encode exactly the view it is handed into the file it is handed (" + w + ")", in
+				}
+				c.Touch(h)
+				enc := txn8Enc{call: cc, helper: h, handed: true}
+				enc.errV, _ = txnErrOf(cc)
+				view := cc.Call.Args[pv]
+				enc.view = view
+				enc.from = []ssa.Value{view}
+				enc.isFI = func(el ssa.Value) bool {
+					r, path, pk := core.AccessPath(el)
+					return pk && r == view && path == ".FileInfo"
+				}
+				if pw >= 0 {
+					enc.writer = cc.Call.Args[pw]
+				}
+				encs = append(encs, enc)
 			}
 		default:
 			return nil, nil, "EncodeView / Container.Commit is reached through " + txnCallLabel(p, call) + "; the correspondence between encoded and swapped files is not visible in this function", in
@@ -2561,8 +2585,12 @@ func txn8WriterOK(p *core.Prog, e *ssa.Call) bool {
 	if len(e.Call.Args) < 3 {
 		return false
 	}
-	view := e.Call.Args[2]
-	w := core.Strip(e.Call.Args[1])
+	return txn8WriterIs(p, e.Call.Args[1], e.Call.Args[2])
+}
+
+// txn8WriterIs: writer is FileForUpdate() of view.FileInfo.Handler.
+func txn8WriterIs(p *core.Prog, writer, view ssa.Value) bool {
+	w := core.Strip(writer)
 	fu, idx, ok := core.ExtractOf(w)
 	if ok && idx == 0 && p.CalleeName(fu) == txnFileForUpd && len(fu.Call.Args) == 1 {
 		r, path, pk := core.AccessPath(fu.Call.Args[0])
@@ -2619,6 +2647,15 @@ func txn8EncodePhase(c *Ctx, g *ssa.Function, encs []txn8Enc, isStop func(ssa.In
 			}
 			if !txn8WriterOK(p, e.call) {
 				bad[i] = "the writer given to EncodeView is not FileForUpdate() of the handler of the encoded view itself: a view could be written into another table's file"
+				continue
+			}
+		} else if e.handed {
+			if reassigned != "" {
+				bad[i] = "the function reassigns View.FileInfo / FileInfo.Handler at " + reassigned + ": the rule cannot tell that the handler written to is the handler that is swapped"
+				continue
+			}
+			if e.writer != nil && !txn8WriterIs(p, e.writer, e.view) {
+				bad[i] = "the file handed to " + p.FnRef(e.helper) + ", which encodes the view into it, is not FileForUpdate() of the handler of the encoded view itself: a view could be written into another table's file"
 				continue
 			}
 		} else if e.result == nil {
@@ -2703,6 +2740,9 @@ func txn8ViewHelper(c *Ctx, h *ssa.Function, depth int) string {
 		if e.direct && !txn8WriterOK(p, e.call) {
 			return "the writer given to EncodeView at " + c.Pos(e.call) + " is not FileForUpdate() of the handler of the encoded view itself"
 		}
+		if e.handed && e.writer != nil && !txn8WriterIs(p, e.writer, e.view) {
+			return "the file handed to the encode helper at " + c.Pos(e.call) + " is not FileForUpdate() of the handler of the encoded view itself"
+		}
 	}
 	errIdx := core.ErrorResultIndex(h)
 	n := 0
@@ -2735,6 +2775,101 @@ func txn8ViewHelper(c *Ctx, h *ssa.Function, depth int) string {
 		return "it has no return that can report success"
 	}
 	return ""
+}
+
+// txn8WriteHelper: h encodes exactly the view it is handed (parameter #pv) — directly or through a
+// further such helper — into the file it is handed (parameter #pw; pw = -1 when h itself takes
+// FileForUpdate() of the handler of that view), it swaps nothing, and every return that can report
+// success is dominated by an encode and cannot be reached from the failure edge of that encode:
+// "h returned nil" means "the view was encoded". The caller then stands for the encode, with the
+// parameters mapped back to its arguments.
+func txn8WriteHelper(c *Ctx, h *ssa.Function, depth int) (pw, pv int, why string) {
+	p := c.P
+	if h == nil || h.Blocks == nil {
+		return -1, -1, "no body"
+	}
+	errIdx := core.ErrorResultIndex(h)
+	if errIdx < 0 {
+		return -1, -1, "it returns no error: a failed encode cannot be told from a successful one"
+	}
+	encs, lists, w, _ := txn8CollectEncs(c, h, depth, func(call ssa.CallInstruction) string { return "it also swaps files" })
+	if w != "" {
+		return -1, -1, w
+	}
+	if len(lists) > 0 || len(encs) == 0 {
+		return -1, -1, "it does not encode exactly the view it is called for"
+	}
+	if pos := txn8Reassigned(c, h); pos != "" {
+		return -1, -1, "it reassigns View.FileInfo / FileInfo.Handler at " + pos
+	}
+	paramIdx := func(v ssa.Value) int {
+		q, ok := core.Strip(v).(*ssa.Parameter)
+		if !ok {
+			if pp, i := fxParamOf(v); pp != nil && pp.Parent() == h {
+				return i
+			}
+			return -1
+		}
+		for i, x := range h.Params {
+			if x == q {
+				return i
+			}
+		}
+		return -1
+	}
+	pw, pv = -2, -2
+	for _, e := range encs {
+		var view, writer ssa.Value
+		switch {
+		case e.direct && len(e.call.Call.Args) >= 3:
+			view, writer = e.call.Call.Args[2], e.call.Call.Args[1]
+		case e.handed:
+			view, writer = e.view, e.writer
+		default:
+			return -1, -1, "it encodes through a helper that returns a FileInfo of its own"
+		}
+		vi := paramIdx(view)
+		if vi < 0 {
+			return -1, -1, "the view encoded at " + c.Pos(e.call) + " is not the view it is handed"
+		}
+		wi := -1
+		if writer != nil {
+			if wi = paramIdx(writer); wi < 0 && !txn8WriterIs(p, writer, view) {
+				return -1, -1, "the writer at " + c.Pos(e.call) + " is neither a file it is handed nor FileForUpdate() of the handler of the encoded view"
+			}
+		}
+		if (pv != -2 && pv != vi) || (pw != -2 && pw != wi) {
+			return -1, -1, "it encodes more than one view / into more than one file"
+		}
+		pv, pw = vi, wi
+	}
+	n := 0
+	for _, r := range core.Returns(h) {
+		if !txnMayReturnNil(r, errIdx) {
+			continue
+		}
+		n++
+		ok := false
+		for _, e := range encs {
+			if e.errV == nil || !core.Dominates(e.call, r) {
+				continue
+			}
+			errV := e.errV
+			cut := func(from, to *ssa.BasicBlock) bool {
+				return txnNilEdge(from, to, func(x ssa.Value) bool { return txnValueIs(x, errV) }, true)
+			}
+			if !core.ReachesAfter(e.call, r, nil, cut) {
+				ok = true
+			}
+		}
+		if !ok {
+			return -1, -1, "the return at " + c.Pos(r) + " can report success although the view was not (successfully) encoded before it"
+		}
+	}
+	if n == 0 {
+		return -1, -1, "it has no return that can report success"
+	}
+	return pw, pv, ""
 }
 
 // txn8EncodeHelper: h encodes views derived from its map parameter(s) and
@@ -2954,6 +3089,8 @@ func txn8Func(c *Ctx, fn *ssa.Function, full bool) {
 			c.Bad(key, c.Pos(e.call), bad[i])
 		case e.direct:
 			c.Ok(key, c.Pos(e.call), "written through FileForUpdate of its own handler; its FileInfo is appended to a list on every continuing path")
+		case e.handed:
+			c.Ok(key, c.Pos(e.call), "helper "+p.FnRef(e.helper)+" encodes the view it is handed into the file it is handed — FileForUpdate of the view's own handler — and reports success only after the encode; the view's FileInfo is appended to a list on every continuing path")
 		default:
 			c.Ok(key, c.Pos(e.call), "helper "+p.FnRef(e.helper)+" writes the view through FileForUpdate of its own handler and returns its FileInfo, which is appended to a list on every continuing path")
 		}
